@@ -24,7 +24,7 @@ Definition strip_set (s : sexp) : list sexp :=
 
 Definition dec_obs (g : sexp) : option obs :=
   match g with
-  | L [_; _; slots; _; _; _; calls; sets] =>
+  | L (_ :: _ :: slots :: _ :: _ :: _ :: calls :: sets :: _) =>
       do calls' <- map_opt dec_call (strip_set calls);
       do sets' <- map_opt (as_pair as_atom as_atom) (strip_set sets);
       Some {| ob_slots := keyed slots; ob_calls := calls'; ob_sets := sets' |}
